@@ -10,6 +10,7 @@ import re
 from z3 import (And, Or, Not, If, Implies, Int, Bool, IntVal, BoolVal, Sum, Distinct, Function, IntSort, BoolSort,
                 is_true, is_false, simplify)
 from .sexp import show, lst
+from .instantiate import decode_uf
 
 INT_RE = re.compile(r'-?\d+$')
 
@@ -128,10 +129,11 @@ def sqltype(name):
 
 
 class Rel:
-    def __init__(self, schema, rows, types=None):
+    def __init__(self, schema, rows, types=None, okeys=None):
         self.schema = schema
         self.rows = rows
         self.types = types  # list of 'I'/'B'/'S'/None per column (static)
+        self.okeys = okeys  # per slot: [(V, desc), ...] sort keys this relation's slot sequence is ordered by, or None
 
     def width(self):
         return len(self.schema)
@@ -150,18 +152,21 @@ class Enc:
         self.tabs = {}
         self.tabtypes = {}
         self.ufs = {}
+        self.uf_apps = {}
         self.syms = {}
         self.strlits = {}
-        self.contracts = dict(hashjoin_null_eq=True, semijoin_null_eq=True, count_distinct_counts_null=False)
+        self.contracts = dict(hashjoin_null_eq=True, semijoin_null_eq=True, mergejoin_null_eq=True, count_distinct_counts_null=False)
         if contracts:
             self.contracts.update(contracts)
+        self.no_ties = False
         self.scan_ranges = None  # optional {filter_text: range dict} -> scan filters read as KeyRanges (C13)
         for t, cols in tables.items():
             rows = []
             for i in range(K):
                 vals = []
-                for c, (ck, ty) in enumerate(cols):
-                    n = Bool('t%s_r%d_c%d_n' % (t, i, c))
+                for c, col in enumerate(cols):
+                    ck, ty = col[0], col[1]
+                    n = Bool('t%s_r%d_c%d_n' % (t, i, c)) if (len(col) < 3 or col[2]) else bv(False)
                     if ty == 'B':
                         v = Bool('t%s_r%d_c%d_v' % (t, i, c))
                     else:
@@ -224,17 +229,16 @@ class Enc:
                 zargs += [If(a.n, 0, a.v), a.n]
         key = (name, rett, tuple(str(s) for s in sig))
         if key not in self.ufs:
-            fv = Function('uf_%s_v' % name, *(sig + [BoolSort() if rett == 'B' else IntSort()]))
-            fn = Function('uf_%s_n' % name, *(sig + [BoolSort()]))
+            if zargs:
+                fv = Function('uf_%s_v' % name, *(sig + [BoolSort() if rett == 'B' else IntSort()]))
+                fn = Function('uf_%s_n' % name, *(sig + [BoolSort()]))
+            else:
+                fv = Bool('uf_%s_v0' % name) if rett == 'B' else Int('uf_%s_v0' % name)
+                fn = Bool('uf_%s_n0' % name)
             self.ufs[key] = (fv, fn)
         fv, fn = self.ufs[key]
-        if not zargs:
-            zv = Bool('uf_%s_v0' % name) if rett == 'B' else Int('uf_%s_v0' % name)
-            zn = Bool('uf_%s_n0' % name)
-            self.ufs[key] = (zv, zn)
-            v, n = zv, zn
-        else:
-            v, n = fv(*zargs), fn(*zargs)
+        self.uf_apps.setdefault(key, []).append(zargs)
+        v, n = (fv(*zargs), fn(*zargs)) if zargs else (fv, fn)
         if rett != 'B':
             self.cons += [v >= -self.bound, v <= self.bound]
         return V(rett, v, n)
@@ -257,6 +261,9 @@ class Enc:
         for orel, orow in outer:
             if k in orel.schema:
                 return orow[orel.schema.index(k)]
+        d = decode_uf(e)
+        if d is not None:
+            return self.uf(d[0], d[1], [self.expr(a, rel, row, outer) for a in d[2]])
         if isinstance(e, str):
             if e.startswith('$') or e.startswith('#'):
                 raise Unresolved(e)
@@ -382,7 +389,7 @@ class Enc:
         if t not in self.tabs:
             raise NotEncodable('scan of unknown table ' + p[1])
         cols = lst(p[2])
-        names = [ck for ck, _ in self.tabtypes[t]]
+        names = [col[0] for col in self.tabtypes[t]]
         idx = []
         for c in cols:
             if c not in names:
@@ -466,14 +473,14 @@ class Enc:
 
     def p_filter(self, p, outer):
         c = self.plan(p[2], outer)
-        return Rel(c.schema, [(And(pr, istrue(self._bool(self.expr(p[1], c, row, outer)))), row) for pr, row in c.rows], c.types)
+        return Rel(c.schema, [(And(pr, istrue(self._bool(self.expr(p[1], c, row, outer)))), row) for pr, row in c.rows], c.types, c.okeys)
 
     def p_proj(self, p, outer):
         c = self.plan(p[2], outer)
         es = lst(p[1])
         rows = [(pr, [self.expr(e, c, row, outer) for e in es]) for pr, row in c.rows]
         types = [next((r[1][i].t for r in rows if r[1][i].t), None) for i in range(len(es))]
-        return Rel([show(e) for e in es], rows, types)
+        return Rel([show(e) for e in es], rows, types, c.okeys)
 
     def p_empty(self, p, outer):
         c = self.plan(p[1], outer)
@@ -508,20 +515,20 @@ class Enc:
         both = Rel(L.schema + R.schema, None)
         return self._join(jt, L, R, lambda lr, rr: istrue(self._bool(self.expr(on, both, lr + rr, outer))))
 
-    def _keyeq(self, a, b, jt):
-        null_eq = self.contracts['semijoin_null_eq'] if jt in ('semi', 'anti') else self.contracts['hashjoin_null_eq']
+    def _keyeq(self, a, b, jt, merge=False):
+        null_eq = self.contracts['semijoin_null_eq'] if jt in ('semi', 'anti') else self.contracts['mergejoin_null_eq' if merge else 'hashjoin_null_eq']
         if null_eq:
             return dveq(a, b)
         a, b = coerce(a, b)
         return And(Not(a.n), Not(b.n), as_int(a) == as_int(b))
 
-    def p_hashjoin(self, p, outer):
+    def p_hashjoin(self, p, outer, merge=False):
         jt, on, lk, rk = p[1], p[2], lst(p[3]), lst(p[4])
         L, R = self.plan(p[5], outer), self.plan(p[6], outer)
         both = Rel(L.schema + R.schema, None)
 
         def match(lr, rr):
-            c = [self._keyeq(self.expr(a, L, lr, outer), self.expr(b, R, rr, outer), jt) for a, b in zip(lk, rk)]
+            c = [self._keyeq(self.expr(a, L, lr, outer), self.expr(b, R, rr, outer), jt, merge) for a, b in zip(lk, rk)]
             if on != 'true':
                 c.append(istrue(self._bool(self.expr(on, both, lr + rr, outer))))
             return And(c) if c else bv(True)
@@ -533,7 +540,7 @@ class Enc:
         L, R = self.plan(p[5], outer), self.plan(p[6], outer)
         self.requirements.append(('mergejoin left input sorted by ' + show(p[3]), self.is_sorted(L, lk, outer)))
         self.requirements.append(('mergejoin right input sorted by ' + show(p[4]), self.is_sorted(R, rk, outer)))
-        return self.p_hashjoin(['hashjoin'] + p[1:], outer)
+        return self.p_hashjoin(['hashjoin'] + p[1:], outer, merge=True)
 
     def p_apply(self, p, outer):
         jt = p[1]
@@ -634,10 +641,30 @@ class Enc:
         return Rel([show(k) for k in keys] + [show(a) for a in aggs], out, types)
 
     def p_sortagg(self, p, outer):
-        keys = lst(p[1])
+        """SortAggExecutor as written: a new group starts whenever the key differs from the previous row's key
+        (groups are maximal runs in slot order; on input sorted by the keys this coincides with hashagg)."""
+        keys, aggs = lst(p[1]), lst(p[2])
         c = self.plan(p[3], outer)
-        self.requirements.append(('sortagg input sorted by ' + show(p[1]), self.is_sorted(c, keys, outer)))
-        return self.p_hashagg(['hashagg'] + p[1:], outer)
+        n = len(c.rows)
+        kv = [[self.expr(k, c, row, outer) for k in keys] for _, row in c.rows]
+        pr = [r[0] for r in c.rows]
+        same = lambda i, j: And([dveq(a, b) for a, b in zip(kv[i], kv[j])]) if keys else bv(True)
+        out = []
+        for i in range(n):
+            cont = []   # i continues the run of its nearest present predecessor h
+            for h in range(i):
+                nearest = And([pr[h]] + [Not(pr[k]) for k in range(h + 1, i)])
+                cont.append(And(nearest, same(h, i)))
+            leader = And(pr[i], Not(Or(cont))) if cont else pr[i]
+
+            def member(j, i=i):
+                if j < i:
+                    return bv(False)
+                return And([pr[j], same(i, j)] + [Implies(pr[k], same(i, k)) for k in range(i + 1, j)])
+            vals = list(kv[i]) + self._aggs(aggs, c, member, outer)
+            out.append((leader, vals))
+        types = [v.t for v in out[0][1]] if out else None
+        return Rel([show(k) for k in keys] + [show(a) for a in aggs], out, types)
 
     # -- order / limit
     def _keyvals(self, rel, row, ks, outer):
@@ -669,8 +696,12 @@ class Enc:
 
     def sort(self, c, ks, outer=()):
         n = len(c.rows)
-        if n <= 1 or not ks:
+        if not ks:
             return c
+        if n <= 1:
+            c2 = Rel(c.schema, c.rows, c.types)
+            c2.okeys = [self._keyvals(c, row, ks, outer) for _, row in c.rows]
+            return c2
         nm = self.new('perm')
         perm = [Int('%s_%d' % (nm, j)) for j in range(n)]
         self.cons += [And(x >= 0, x < n) for x in perm]
@@ -694,6 +725,10 @@ class Enc:
         for j in range(n - 1):
             self.cons.append(Implies(pres[j + 1], pres[j]))               # present rows first
             self.cons.append(Implies(pres[j + 1], self._lex_le(kvs[j], kvs[j + 1])))
+            if self.no_ties:
+                # assumption (stated bound): the sort keys totally order the rows, so which rows a LIMIT keeps is determined
+                self.cons.append(Implies(pres[j + 1], Not(self._lex_le(kvs[j + 1], kvs[j]))))
+        out.okeys = kvs
         return out
 
     def p_order(self, p, outer):
@@ -724,7 +759,7 @@ class Enc:
                     ok = And(ok, cnt < o + l)
             out.append((And(pr, ok), row))
             cnt = If(pr, cnt + 1, cnt)
-        return Rel(c.schema, out, c.types)
+        return Rel(c.schema, out, c.types, c.okeys)
 
     def p_limit(self, p, outer):
         return self.limit(self.plan(p[3], outer), p[1], p[2], outer)
@@ -802,3 +837,19 @@ def model_tables(m, enc):
 
 def model_rel(m, rel):
     return [[mval(m, v) for v in row] for p, row in rel.rows if is_true(m.eval(p, model_completion=True))]
+
+
+def seq_eq_vals(A, valsA, B, valsB):
+    """The i-th present row of A carries the same value tuple as the i-th present row of B (valsX: per-slot [V...])."""
+    def ranks(X):
+        out, cnt = [], IntVal(0)
+        for p, _ in X.rows:
+            out.append((p, cnt))
+            cnt = If(p, cnt + 1, cnt)
+        return out
+    cons = []
+    ra, rb = ranks(A), ranks(B)
+    for i, (pa, ka) in enumerate(ra):
+        for j, (pb, kb) in enumerate(rb):
+            cons.append(Implies(And(pa, pb, ka == kb), And([dveq(x, y) for x, y in zip(valsA[i], valsB[j])])))
+    return And(cons) if cons else bv(True)
